@@ -224,9 +224,15 @@ func (m *Manager) registerConnection(conn *Connection) {
 func (m *Manager) handleDisconnect(conn *Connection, err error) {
 	m.mu.Lock()
 	// Remove from peers map if this is still the active connection
-	if existing, ok := m.peers[conn.RemoteID]; ok && existing == conn {
+	existing, ok := m.peers[conn.RemoteID]
+	if ok && existing == conn {
 		delete(m.peers, conn.RemoteID)
 	}
+	// A different connection to the same peer is registered: this teardown is stale
+	// (the keepalive path and the read path both report a dead connection, and the
+	// peer may have reconnected in between). The owner cleans up routes and relays by
+	// peer ID, so it must not be told - that state belongs to the live connection.
+	replaced := ok && existing != conn
 
 	// Find the peer info using the config address (original dial address).
 	// This is necessary because RemoteAddr() returns the resolved IP,
@@ -238,8 +244,12 @@ func (m *Manager) handleDisconnect(conn *Connection, err error) {
 	}
 	m.mu.Unlock()
 
-	// Notify callback
-	if m.cfg.OnPeerDisconnect != nil {
+	if replaced {
+		return
+	}
+
+	// Notify callback (once per connection)
+	if m.cfg.OnPeerDisconnect != nil && conn.disconnectNotified.CompareAndSwap(false, true) {
 		m.cfg.OnPeerDisconnect(conn, err)
 	}
 
